@@ -84,6 +84,10 @@ def make_callable(m, is_async, log):
     lines = []
     lines.append('    __env = %s' % env)
     lines.append('    __log.append(["call", __name, __env])')
+    if coro and m.get('yields'):
+        # suspension points AFTER the call was logged: under a concurrent batch a later element finishes first
+        lines.append('    import asyncio as __a')
+        lines.append('    for __k in range(%d): await __a.sleep(0)' % m['yields'])
     if body[0] == 'env':
         lines.append('    return __env')
     elif body[0] == 'ret':
@@ -199,12 +203,35 @@ def build(cfg, is_async, log, **extra):
     return disp
 
 
-def canon_doc(doc):
-    """Replace library-generated human-readable texts by the placeholder; user data strings start with 'U:'."""
+def user_data_values(cfg):
+    vals = []
+    for m in cfg.get('methods', []):
+        if m['body'][0] == 'rpc':
+            vals.append(m['body'][3])
+    for _, hs in cfg.get('ehs', []):
+        for h in hs:
+            if h[0] == 'setdata':
+                vals.append(h[1])
+    for d in cfg.get('mws', []):
+        if d[0] == 'const' and d[1] is not None and d[1][1] == 'error':
+            vals.append(d[1][2][2])
+    return vals
+
+
+def canon_doc(doc, cfg=None):
+    """Replace library-generated human-readable texts by the placeholder; data values the configuration itself
+    supplies (method bodies, error handlers, middlewares) are user data and are kept."""
+    user = user_data_values(cfg) if cfg else []
+
+    def is_user(d):
+        return any(type(d) is type(u) and d == u for u in user)
+
     def fix(r):
         if isinstance(r, dict) and isinstance(r.get('error'), dict):
             e = r['error']
             d = e.get('data')
+            if is_user(d):
+                return r
             if isinstance(d, str) and not d.startswith('U:') and e.get('code') in (-32700, -32600, -32601):
                 e['data'] = '<text>'
             if e.get('code') == -32602 and isinstance(d, list) and d and all(isinstance(x, str) and not x.startswith('U:') for x in d):
@@ -213,6 +240,21 @@ def canon_doc(doc):
     if isinstance(doc, list):
         return [fix(r) for r in doc]
     return fix(doc)
+
+
+def canon_events(log, cfg):
+    """Events carry message renderings made while the request was in flight; bring them to the wire form (server JSON
+    encoder) and apply the same text canonicalisation as to response documents."""
+    out = []
+    for ev in log:
+        if ev[0] == 'eh':
+            e = json.loads(json.dumps(ev[3], cls=_disp.JSONEncoder))
+            out.append([ev[0], ev[1], ev[2], canon_doc({'error': e}, cfg)['error']])
+        elif ev[0] == 'exit' and ev[2] is not None:
+            out.append([ev[0], ev[1], canon_doc(json.loads(json.dumps(ev[2], cls=_disp.JSONEncoder)), cfg)])
+        else:
+            out.append(ev)
+    return out
 
 
 def strict_loads(text):
@@ -231,16 +273,17 @@ def run(cfg, is_async, text, ctx, **extra):
         else:
             r = disp.dispatch(text, context=ctx)
     except Exception as e:
-        return ('raise', e), log
+        return ('raise', e), canon_events(log, cfg)
     if r is None:
-        return ('none',), log
+        return ('none',), canon_events(log, cfg)
     rtext, codes = r
+    log[:] = canon_events(log, cfg)
     try:
         strict_loads(rtext)
         rfc = True
     except ValueError:
         rfc = False
-    return ('some', canon_doc(json.loads(rtext)), list(codes), rfc), log
+    return ('some', canon_doc(json.loads(rtext), cfg), list(codes), rfc), log
 
 
 def load_result(text, loader=json.loads):
